@@ -5,7 +5,7 @@ import Mathlib.Tactic.FieldSimp
 
 example (q : ℚ) (j : ℤ) (h1 : (j : ℚ) ≤ q) (h2 : q < j + 1) : q.floor = j := by
   have : ⌊q⌋ = j := Int.floor_eq_iff.mpr ⟨h1, h2⟩
-  simpa [Rat.floor_def'] using this
+  exact this   -- `⌊q⌋` is `Rat.floor q` by definition of the FloorRing instance on ℚ
 
 -- grid: cell containment. d cells, l<u, eps≥0, m in [b_j, b_{j+1} - eps/d)
 example (d : ℕ) (hd : 0 < d) (l u eps m : ℚ) (hlu : l < u) (heps : 0 ≤ eps) (j : ℤ)
